@@ -1,4 +1,5 @@
 import Pike.Model.Config
+import Pike.Spec.Skeleton
 import Pike.Model.Fields
 import Pike.Facts
 /-
@@ -9,6 +10,18 @@ hypothesis and are compared in the `config` suite).
 namespace Pike
 namespace C17
 open Config
+
+/-- Obligation on the regenerated statement skeletons of the save / read path (config/config.go, config/etcd_client.go):
+`Write` validates before anything is marshalled or handed to the client; `Read` unmarshals exactly the client's bytes;
+the etcd client stores and returns the bytes under its key as they are and reports every change of the key.  The file
+client is exercised by the `config` suite (round trips, refused writes, the real watcher); etcd cannot be run in the
+sandbox, so for it this obligation is the tie. -/
+theorem save_path_transcribed :
+    Facts.skel_Write = Spec.Skeleton.config_Write ∧ Facts.skel_Read = Spec.Skeleton.config_Read
+    ∧ Facts.skel_etcdClient_Get = Spec.Skeleton.config_etcdClient_Get
+    ∧ Facts.skel_etcdClient_Set = Spec.Skeleton.config_etcdClient_Set
+    ∧ Facts.skel_etcdClient_Watch = Spec.Skeleton.config_etcdClient_Watch := by
+  refine ⟨?_, ?_, ?_, ?_, ?_⟩ <;> rfl
 
 /-- Obligation on the extracted facts (main.go `update`, the registries' `Reset`): an accepted
 configuration is applied bottom-up — compress, caches, upstreams, locations, servers — so that
